@@ -33,6 +33,8 @@ type vfC17Case struct {
 	GenuineMs int        `json:"genuine_ms"` // the genuine client dials this long after the trigger
 	Junk      bool       `json:"junk"`       // in-band junk both ways after the tunnel is in use
 	Relays    int        `json:"relays"`
+	RelayLate int        `json:"relay_late_ms"` // the relay's own connector towards the server is this late (relay in the path only)
+	ActDelay  int        `json:"act_delay_ms"`  // in-band latency for the client's ACT line (a user choosing files, a slow path)
 }
 
 type vfProbeRes struct {
@@ -127,6 +129,8 @@ func vfC17Run(cs vfC17Case, res *vfC17Stats) string {
 	opts := sc.Sess
 	opts.Tunnel = true
 	opts.Relays = cs.Relays
+	opts.RelayDialDelayMs = cs.RelayLate
+	opts.FirstWriteDelayMs = cs.ActDelay
 	sess := vfNewSession(opts)
 	defer sess.close()
 	// the trigger tells id and port
@@ -262,7 +266,7 @@ func vfC17Run(cs vfC17Case, res *vfC17Stats) string {
 				return fmt.Sprintf("the client wrote a %s line in-band although the tunnel is in use", m.Typ)
 			}
 		}
-	} else if cs.Connector == "immediate" && cs.GenuineMs < 300 && res.lateProbes == len(results) {
+	} else if cs.Connector == "immediate" && cs.GenuineMs < 300 && res.lateProbes == len(results) && cs.RelayLate < 700 {
 		return "no tunnel was established although the connector worked: " + run.describe()
 	}
 	return ""
@@ -291,6 +295,10 @@ func vfGenC17(rt *rapid.T) vfC17Case {
 	cs.GenuineMs = rapid.SampledFrom([]int{0, 0, 10, 50, 150}).Draw(rt, "genuine")
 	cs.Junk = rapid.Bool().Draw(rt, "junk")
 	cs.Relays = rapid.SampledFrom([]int{0, 0, 1}).Draw(rt, "relays")
+	if cs.Relays > 0 {
+		cs.RelayLate = rapid.SampledFrom([]int{0, 0, 300, 1200, 1600}).Draw(rt, "relaylate")
+	}
+	cs.ActDelay = rapid.SampledFrom([]int{0, 0, 0, 700, 2500}).Draw(rt, "actdelay")
 	return cs
 }
 
@@ -311,7 +319,13 @@ func TestVF_C17(t *testing.T) {
 		if cs.Junk {
 			labels = append(labels, "in_band_junk")
 		}
-		c.eval(cs, len(cs.Probes) > 0 || cs.Connector != "immediate" || cs.Junk, labels...)
+		if cs.ActDelay > 0 {
+			labels = append(labels, fmt.Sprintf("act_delayed_%d", cs.ActDelay))
+		}
+		if cs.RelayLate > 0 {
+			labels = append(labels, fmt.Sprintf("relay_connector_late_%d", cs.RelayLate))
+		}
+		c.eval(cs, len(cs.Probes) > 0 || cs.Connector != "immediate" || cs.Junk || cs.RelayLate > 0, labels...)
 		return msg
 	})
 }
